@@ -24,6 +24,7 @@ from vsc.model.constraint_model import ConstraintModel
 from vsc.model.expr_bin_model import ExprBinModel
 from vsc.model.bin_expr_type import BinExprType
 from vsc.model.expr_fieldref_model import ExprFieldRefModel
+from vsc.model.expr_literal_model import ExprLiteralModel
 from vsc.model.field_array_model import FieldArrayModel
 
 class ConstraintUniqueModel(ConstraintModel):
@@ -38,19 +39,25 @@ class ConstraintUniqueModel(ConstraintModel):
 
         # Elements in the unique list might be arrays        
         unique_l = []
+        # For an element of a random-size list: the condition under which 
+        # it is not part of the list (it lies at or beyond the solved size)
+        absent_l = []
         
         for i in self.unique_l:
             if isinstance(i, ExprFieldRefModel) and isinstance(i.fm, FieldArrayModel):
                 # Collect up the array elements
-                self._add_list_elems(unique_l, i.fm)
+                self._add_list_elems(unique_l, absent_l, i.fm)
             else:
                 unique_l.append(i)
+                absent_l.append(None)
                 
         if len(unique_l) > 1:
             for i in range(len(unique_l)):
                 for j in range(i+1, len(unique_l)):
                     t = ExprBinModel(unique_l[i], BinExprType.Ne, unique_l[j])
-                    from vsc.visitors import ModelPrettyPrinter
+                    for absent in (absent_l[i], absent_l[j]):
+                        if absent is not None:
+                            t = ExprBinModel(absent, BinExprType.Or, t)
                         
                     if ret is None:
                         ret = t.build(btor)
@@ -62,9 +69,16 @@ class ConstraintUniqueModel(ConstraintModel):
                     
         return ret
     
-    def _add_list_elems(self, unique_l, l : FieldArrayModel):
-        for f in l.field_l:
+    def _add_list_elems(self, unique_l, absent_l, l : FieldArrayModel):
+        for i,f in enumerate(l.field_l):
             unique_l.append(ExprFieldRefModel(f))
+            if l.is_rand_sz:
+                absent_l.append(ExprBinModel(
+                    ExprFieldRefModel(l.size),
+                    BinExprType.Le,
+                    ExprLiteralModel(i, False, 32)))
+            else:
+                absent_l.append(None)
         
     def get_nodes(self, node_l):
         node_l.append(self.expr.get_node())
